@@ -283,6 +283,58 @@ fn fam_batch(tag: &str, out: &mut Vec<Case>) {
         if o_verify_batch(&mut t2[..1], &st, &pr, VerifyAction::VerifyOnly).is_ok() { return Err("length mismatch (transcripts) accepted".into()); }
         Ok(())
     })));
+    // a member whose proof claims another extension degree (tag byte and number of d1 scalars of degree d + 1) must make the batch fail at every position
+    let id = format!("{}:batch:odd-degree-member", tag);
+    out.push((id, Box::new(move || {
+        let mut rng = rng_for("odd-degree");
+        for d in [1usize, 2] {
+            let ms: Vec<Member> = (0..3).map(|_| make_member(&mut rng, 8, 1, 1, d, false, None, b"ctx")).collect::<Result<_, _>>()?;
+            let mut b = ms[0].proof.to_bytes();
+            b[0] = (d + 1) as u8;
+            let extra = Scalar::from(9u64).to_bytes();
+            let at = 1 + 32 * d;
+            let tail = b.split_off(at); b.extend_from_slice(&extra); b.extend_from_slice(&tail);
+            let odd = match o_from_bytes(&b) { Ok(p) => p, Err(_) => continue };
+            for pos in 0..3 {
+                let mut v = ms.clone(); v[pos] = Member { proof: odd.clone(), ..ms[pos].clone() };
+                for action in [VerifyAction::VerifyOnly, VerifyAction::RecoverAndVerify, VerifyAction::RecoverOnly] {
+                    let r = catch_unwind(AssertUnwindSafe(|| verify(&v, action, b"ctx"))).map_err(|_| format!("panic on a batch whose member {} claims extension degree {}", pos, d + 1))?;
+                    if r.is_ok() { return Err(format!("a batch whose member at position {} carries a proof of extension degree {} (statements: {}) was accepted in {:?}", pos, d + 1, d, action)); }
+                }
+            }
+        }
+        Ok(())
+    })));
+    // promises that do not fit in the bit length are refused wherever they sit, in every mode, with an error
+    let id = format!("{}:batch:oversized-promise", tag);
+    out.push((id, Box::new(move || {
+        let mut rng = rng_for("oversized-promise");
+        let small = make_member(&mut rng, 8, 1, 1, 1, false, None, b"ctx")?;
+        let big = make_member(&mut rng, 8, 2, 2, 1, false, None, b"ctx")?;
+        let spoil = |m: &Member, j: usize| -> Result<Member, String> {
+            let mut pr = m.statement.minimum_value_promises.clone(); pr[j] = Some(256);
+            let st = RangeStatement::init(m.statement.generators.clone(), m.statement.commitments.clone(), pr, None).map_err(|e| format!("{:?}", e))?;
+            Ok(Member { statement: st, ..m.clone() })
+        };
+        let cases: Vec<(String, Vec<Member>)> = vec![
+            ("single statement".into(), vec![spoil(&small, 0)?]),
+            ("largest statement first, second promise".into(), vec![spoil(&big, 1)?, small.clone()]),
+            ("largest statement last".into(), vec![small.clone(), spoil(&big, 0)?]),
+            ("smaller statement next to the largest".into(), vec![big.clone(), spoil(&small, 0)?]),
+        ];
+        for (what, v) in cases {
+            for action in [VerifyAction::VerifyOnly, VerifyAction::RecoverAndVerify, VerifyAction::RecoverOnly] {
+                let st: Vec<_> = v.iter().map(|m| m.statement.clone()).collect();
+                let pr: Vec<_> = v.iter().map(|m| m.proof.clone()).collect();
+                let mut tr: Vec<_> = v.iter().map(|_| Transcript::new(b"ctx")).collect();
+                match o_verify_batch(&mut tr, &st, &pr, action) {
+                    Ok(_) => return Err(format!("a promise of 2^bits was not refused ({}, {:?})", what, action)),
+                    Err(_) => {}
+                }
+            }
+        }
+        Ok(())
+    })));
     // C08: equal and opposite defects in two members must not cancel
     for d in [1usize, 3] {
         let id = format!("{}:batch:cancel:d={}", tag, d);
@@ -832,7 +884,7 @@ fn families(prop: &str) -> Vec<Case> {
         "C01" | "C12" => { if prop == "C12" { fam_gens(prop, &mut v); fam_batch(prop, &mut v); } fam_completeness(prop, &mut v); }
         "C02" | "C04" | "C05" => { fam_binding(prop, &mut v); fam_batch(prop, &mut v); if prop == "C05" { fam_panics(prop, &mut v); } if prop == "C02" { fam_modes(prop, &mut v); } fam_completeness(prop, &mut v); }
         "C03" | "C08" => { fam_batch(prop, &mut v); }
-        "C06" | "C07" => { fam_prover(prop, &mut v); if prop == "C07" { fam_binding(prop, &mut v); } }
+        "C06" | "C07" => { fam_prover(prop, &mut v); if prop == "C07" { fam_binding(prop, &mut v); fam_batch(prop, &mut v); } }
         "C09" | "C10" => { fam_modes(prop, &mut v); fam_completeness(prop, &mut v); fam_batch(prop, &mut v); }
         "C13" | "C14" => { fam_nonces(prop, &mut v); fam_alpha(prop, &mut v); }
         "C11" => { fam_gens(prop, &mut v); }
